@@ -20,7 +20,7 @@ impl PC {
             res is Ok ==> res->Ok_0 == (chk_dec(vk, commitments@, *point, values@, *proof, old(sponge).st@) is Accept),
             res is Ok ==> final(sponge).st@ == chk_sponge(vk, commitments@, *point, values@, *proof, old(sponge).st@) { unimplemented!() }
 
-//@fn id=lib.batch_check file=poly-commit/src/lib.rs scope="pub trait PolynomialCommitment<F: PrimeField, P: Polynomial<F>>: Sized" name=batch_check props=C05,C17,C11
+//@fn id=lib.batch_check file=poly-commit/src/lib.rs scope="pub trait PolynomialCommitment<F: PrimeField, P: Polynomial<F>>: Sized" name=batch_check props=C05,C06,C17,C11
     #[verifier::loop_isolation(false)]
     fn batch_check<'a>(vk: &VK, commitments: Vec<&'a LabeledCommitment<Comm>>, query_set: &BTreeSet<(String, (String, Pt))>, evaluations: &BTreeMap<(String, Pt), Fr>, proof: &BatchProof, sponge: &mut Sponge, rng: &mut Rng) -> (res: Result<bool, Error>)
     ensures
